@@ -127,7 +127,7 @@ package storage
 //@   requires q != nil && q.items != nil
 //@   modifies family(CH_len), family(CH_closed), allfields(heap.Heap[*item]), allelems(*item)
 //@   loop 0 invariant q.items != nil
-//@   loop 1 invariant 0 <= i && i <= l && len(h.Slice) == l - i && hOK(h)
+//@   loop 1 invariant 0 <= i && len(h.Slice) + i == atLoopEntry(len(h.Slice)) && hOK(h)
 //@   loop 0 step [C11.loop.inv]    hOK(h)
 //@   loop 0 step [C11.notify.drain] len(h.Slice) == 0 || (ctxErr(h.Slice[0].ctx) == nil && h.Slice[0].revision > n.revision)
 
